@@ -627,14 +627,41 @@ func caseLine(c foldCase) string {
 		effForm(c.t, c.a, c.aform), c.bEffForm())
 }
 
+// corpusCases: wide (N > 64) witnesses of the listed findings, run after the
+// generated cases at indices N, N+1, ... on their own generator, so that the
+// generated cases do not depend on them.
+func corpusCases() []foldCase {
+	mk := func(op string, s bool, n int, a, b string, af, bf string) foldCase {
+		oi, _ := opByName(op, false)
+		x, _ := new(big.Int).SetString(a, 10)
+		y, _ := new(big.Int).SetString(b, 10)
+		return foldCase{t: ityp{s, n}, op: oi, a: x, b: y, aform: af, bform: bf}
+	}
+	return []foldCase{
+		// (-int65(2^64)) >> 1: large-path Rsh is logical (Mpc.C12_wide_witnesses)
+		mk(">>", true, 65, "-18446744073709551616", "1", "cast", "cast"),
+		mk(">>", true, 100, "-633825300114114700748351602688", "3", "neg", "cast"),
+		// typed negative constants T(-v), 32 < N < 64, whose folded result a
+		// further consumer rejects
+		mk("|", true, 47, "1", "-70368744177664", "cast", "cast"),
+		mk("^", true, 33, "-4294967296", "4294967293", "cast", "cast"),
+		mk("+", true, 33, "4294967295", "-3978804410", "cast", "cast"),
+	}
+}
+
 func modeFold(cf *hxlib.CommonFlags, o *hxlib.Out) {
 	r := hxlib.NewRng(cf.Seed)
 	fixed := fixedCases()
+	corpus := corpusCases()
+	corpusRng := hxlib.NewRng(cf.Seed ^ 0x636f72707573)
 	seen := map[string]bool{}
-	for i := 0; i < cf.N; i++ {
+	for i := 0; i < cf.N+len(corpus); i++ {
 		var c foldCase
-		cr := r.Fork()
-		if i < len(fixed) {
+		var cr *hxlib.Rng
+		if i >= cf.N {
+			cr = corpusRng.Fork()
+			c = corpus[i-cf.N]
+		} else if cr = r.Fork(); i < len(fixed) {
 			c = fixed[i]
 		} else {
 			c = genCase(cr, i)
